@@ -722,7 +722,9 @@ class HTTPConnectionPool(ConnectionPool, RequestMethods):
         if url.startswith("/"):
             url = to_str(_encode_target(url))
         else:
-            url = to_str(parsed_url.url)
+            # The fragment is never part of a request target (absolute-form
+            # included), just like _encode_target() drops it for origin-form.
+            url = to_str(parsed_url._replace(fragment=None).url)
 
         conn = None
 
